@@ -78,8 +78,9 @@ def rectCells (q : Rect) : List Cell :=
   (List.range (q.2.2.1 - q.1 + 1).toNat).flatMap fun (i : Nat) =>
     (List.range (q.2.2.2 - q.2.1 + 1).toNat).map fun (j : Nat) => (q.1 + (i : Int), q.2.1 + (j : Int))
 
-/-- one reference of a sequence: `none` = the reference is silently skipped (three
-or more parts: the `switch len(rng)` of `flatSqref` has no default case) -/
+/-- one reference of a sequence: a cell, a range, anything else (three or more
+parts) is `ErrParameterInvalid` (the `default` case, since the repair of
+`sqref:accept-non-ref:skipped-multi-colon`; the `Option` is kept for the callers). -/
 def flatRef (ref : List Char) : Except Err (Option (List Cell)) :=
   match splitColon ref with
   | [a] =>
@@ -90,7 +91,7 @@ def flatRef (ref : List Char) : Except Err (Option (List Cell)) :=
     match rangeRefToCoordinates ref with
     | .error e => .error e
     | .ok q => .ok (some (rectCells (sortCoordinates q)))
-  | _ => .ok none
+  | _ => .error .param
 
 def flatRefs : List (List Char) → Except Err (List Cell)
   | [] => .ok []
